@@ -510,7 +510,7 @@ func ruleInc3(c *Ctx) []*Ob {
 				for _, scc := range loops {
 					if w.fn == "(*segmentStack).isEmpty" {
 						o.trivial(w.fn, "no unlisted skip in the loop over "+mname, c.instrPos(pos), "table exception: an existential query - the first non-empty child answers 'not empty'")
-					} else if bad := loopSkipsRecursion(c, f, scc, mname); bad != "" {
+					} else if bad := loopSkipsRecursion(c, f, scc, mname, true); bad != "" {
 						o.add(w.fn, "no unlisted skip in the loop over "+mname, c.instrPos(pos), false, bad)
 					} else {
 						o.add(w.fn, "no unlisted skip in the loop over "+mname, c.instrPos(pos), true,
@@ -520,6 +520,44 @@ func ruleInc3(c *Ctx) []*Ob {
 			} else {
 				o.add(w.fn, construct, c.pos(f.Pos()), false,
 					"the loop over "+mname+" does not call the walker on the children: the subtree is not processed")
+			}
+		}
+	}
+	// discovered walkers: any other function that calls itself inside a range loop over a child map is a tree walker
+	// too (refreshChildLLSnapshots, statsDeep, height, hasMergeOps, sameChildren, mmapRef, release walkers ...): the
+	// same "no unlisted skip" obligation applies to each of its child loops
+	inTable := map[*ssa.Function]bool{}
+	for _, w := range walkerTable {
+		inTable[c.Fn(w.fn)] = true
+	}
+	var mnames []string
+	for mn := range childMapNames {
+		mnames = append(mnames, mn)
+	}
+	sort.Strings(mnames)
+	for _, f := range c.Funcs {
+		if inTable[f] || c.isHarness(f) || f.Parent() != nil {
+			continue
+		}
+		for _, mname := range mnames {
+			for _, scc := range rangeLoopsOver(f, mname) {
+				var pos ssa.Instruction
+				eachInstr(f, func(i ssa.Instruction) {
+					ci, ok := i.(ssa.CallInstruction)
+					if ok && ci.Common().StaticCallee() == f && scc[i.Block()] {
+						pos = i
+					}
+				})
+				if pos == nil {
+					continue
+				}
+				fn := c.fname(f)
+				if bad := loopSkipsRecursion(c, f, scc, mname, false); bad != "" {
+					o.add(fn, "no unlisted skip in the loop over "+mname, c.instrPos(pos), false, bad)
+				} else {
+					o.add(fn, "no unlisted skip in the loop over "+mname, c.instrPos(pos), true,
+						"discovered walker: an iteration skips the recursive call only on a missing-counterpart, incarnation-mismatch, deleted-marker or already-processed edge")
+				}
 			}
 		}
 	}
@@ -700,7 +738,7 @@ func directContinue(b *ssa.BasicBlock) bool {
 	return false
 }
 
-func loopSkipsRecursion(c *Ctx, f *ssa.Function, scc map[*ssa.BasicBlock]bool, mname string) string {
+func loopSkipsRecursion(c *Ctx, f *ssa.Function, scc map[*ssa.BasicBlock]bool, mname string, earlyExit bool) string {
 	// the Next instruction of this loop
 	var next *ssa.Next
 	for b := range scc {
@@ -787,6 +825,9 @@ func loopSkipsRecursion(c *Ctx, f *ssa.Function, scc map[*ssa.BasicBlock]bool, m
 		}})
 	if skipped {
 		return "an iteration over " + mname + " can complete without the recursive call on a condition that is neither a missing counterpart, an incarnation mismatch nor the deleted marker: the child is silently left out of the result (downstream, an absent child means 'deleted')"
+	}
+	if !earlyExit {
+		return "" // a discovered walker may be an existential query (first hit answers): only the skip is judged
 	}
 	// leaving the loop early (return / break inside the body) and then reporting success leaves the remaining children unvisited
 	res := f.Signature.Results()
